@@ -210,12 +210,14 @@ package magic
 //@   ghost return: json_satisfied = querySatisfied
 //@   ensures [C09_G_whole] result && (limit == 0 || len(raw) < limit) ==> wsLen(raw) < len(raw) && (raw[wsLen(raw)] == '{' || raw[wsLen(raw)] == '[') && valLen(raw, 0, 4096) == len(raw)
 //@   ensures [C08_G_whole] (limit == 0 || len(raw) < limit) && wsLen(raw) < len(raw) && (raw[wsLen(raw)] == '{' || raw[wsLen(raw)] == '[') && valLen(raw, 0, 4096) == len(raw) && q == "json" && wantTok == 192 ==> result
+//@   ensures [C08_G_cut] !(limit == 0 || len(raw) < limit) && q == "json" && wantTok == 192 ==> result == (wsLen(raw) < len(raw) && (raw[wsLen(raw)] == '{' || raw[wsLen(raw)] == '[') && insp(raw) == len(raw) && len(raw) > 0)
 //@   ensures [C08C09_decision_whole] result && (limit == 0 || len(raw) < limit) ==> json_satisfied && json_parsed == len(raw)
 //@   ensures [C08C09_decision_cut] result && !(limit == 0 || len(raw) < limit) ==> json_satisfied && json_inspected == len(raw) && len(raw) > 0
 
 // C08/C09 (whole documents): JSON answers exactly the grammar G of internal/json/contracts_verif.go:
 // the input is one object or array (valLen covers every byte), nested at most 4096 deep.
 //@ func magic.JSON
+//@   ensures [C08_G_json_cut] !(limit == 0 || len(raw) < limit) ==> result == (wsLen(raw) < len(raw) && (raw[wsLen(raw)] == '{' || raw[wsLen(raw)] == '[') && insp(raw) == len(raw) && len(raw) > 0)
 //@   ensures [C08C09_G_json] (limit == 0 || len(raw) < limit) ==> result == (wsLen(raw) < len(raw) && (raw[wsLen(raw)] == '{' || raw[wsLen(raw)] == '[') && valLen(raw, 0, 4096) == len(raw))
 
 // C19, converse direction on the detectors themselves: a JAR / OOXML / APK verdict implies that a
